@@ -193,3 +193,58 @@ pub fn structured_lengths(max: u64) -> Vec<u64> {
     v.dedup();
     v
 }
+
+/// A sparse, curated list of large lengths: per octave in (lo, hi] one power of two, one 3*2^k, a 9*2^k*5*7 style
+/// smooth number, a Rader-friendly prime, a Bluestein prime, a product of two primes, a prime times 2^k.
+pub fn big_lengths(lo: u64, hi: u64) -> Vec<u64> {
+    let mut v = Vec::new();
+    let mut p2 = 1u64;
+    while p2 <= hi {
+        if p2 > lo {
+            v.push(p2);
+            let cands = [p2 / 4 * 3, p2 / 64 * 45, p2 / 128 * 77 * 2 / 2, p2 / 16 * 11];
+            for c in cands {
+                if c > lo && c <= hi {
+                    v.push(c);
+                }
+            }
+            // primes just below p2
+            let mut c = p2 - 1;
+            let (mut fr, mut fb) = (false, false);
+            while c > p2 / 2 && !(fr && fb) {
+                if is_prime_u64(c) {
+                    let rader = prime_factors(c - 1).iter().all(|&q| q <= 23);
+                    if rader && !fr {
+                        fr = true;
+                        v.push(c);
+                    }
+                    if !rader && !fb {
+                        fb = true;
+                        v.push(c);
+                        if c * 6 <= hi {
+                            v.push(c * 6);
+                        }
+                    }
+                }
+                c -= 1;
+            }
+            // product of two primes near sqrt(p2)
+            let r = (p2 as f64).sqrt() as u64;
+            let mut a = r | 1;
+            while !is_prime_u64(a) {
+                a += 2;
+            }
+            let mut b = a + 2;
+            while !is_prime_u64(b) {
+                b += 2;
+            }
+            if a * b > lo && a * b <= hi {
+                v.push(a * b);
+            }
+        }
+        p2 *= 2;
+    }
+    v.sort();
+    v.dedup();
+    v
+}
